@@ -162,7 +162,7 @@ def gen_cfg(rng):
         r = rng.random()
         if r < 0.2: lines.append(rng.choice([b"", b"# comment", b"   ", b"\t# c = 1"])); continue
         k = rng.randrange(len(opts)); o = opts[k]
-        v = rng.choice([b"1", b"a b", b"x=y", b"42", b"-1", b"foo", b"\"q\""])
+        v = rng.choice([b"1", b"a b", b"x=y", b"42", b"-1", b"foo", b"\"q\"", b"", b""])      # also empty values (`flag =`), after lines with a value
         nm = rng.choice(unique_prefixes(opts, o)) if rng.random() < 0.3 else o["name"]
         if b"=" in nm: nm = o["name"]
         sp = rng.choice([b" = ", b"=", b"  =\t"])
